@@ -774,6 +774,32 @@ class Assembler:
                 self.fired.add('22:eta-expand-constructor-as-function')
         self.body_edits(s, fp, ed)
         loops = fp.loops()
+        if spec.get('lift'):
+            # `$0`, `$1`, .. in the loop clauses and proof texts of a lifted closure stand for the closure's parameter names
+            cls_ = fp.closures()
+            if spec['lift']['k'] < len(cls_):
+                ka_, kb_ = cls_[spec['lift']['k']]
+                pn_, d__, in_t, td_ = [], 0, False, 0
+                for k_ in range(ka_ + 1, kb_):
+                    c_ = s.s(k_)
+                    if s.kind(k_) == 'p':
+                        if c_ in '([<':
+                            d__ += 1
+                        elif c_ in ')]>':
+                            d__ -= 1
+                        elif c_ == ':' and not in_t:
+                            in_t, td_ = True, d__
+                        elif c_ == ',' and in_t and d__ == td_:
+                            in_t = False
+                    elif s.is_id(k_) and not in_t and c_ not in ('mut', 'ref'):
+                        pn_.append(c_)
+                def sub_(x):
+                    for i_, n_ in enumerate(pn_):
+                        x = x.replace('$%d' % i_, n_)
+                    return x
+                spec = dict(spec)
+                spec['loop'] = [dict(lp_, **{kk: [sub_(c) for c in lp_.get(kk, [])] for kk in ('invariant', 'invariant_except_break', 'ensures') if kk in lp_}) for lp_ in spec.get('loop', [])]
+                spec['proof'] = [dict(pr_, **{kk: sub_(pr_[kk]) for kk in ('text', 'assert') if kk in pr_}) for pr_ in spec.get('proof', [])]
         for lp in spec.get('loop', []):
             kidx = lp['k']
             if kidx >= len(loops):
